@@ -1620,6 +1620,139 @@ def compose_lapack(mk, geom, ops):
         check_flags(mk, lab, t)
 
 
+_GRADED_OPS = {
+    "canonize_between(A,B)": lambda tn: tn.canonize_between("A", "B"),
+    "canonize_between(B,A)": lambda tn: tn.canonize_between("B", "A"),
+    "canonize_between(A,B,absorb=left)": lambda tn: tn.canonize_between("A", "B", absorb="left"),
+    "canonize_between(A,B,absorb=both)": lambda tn: tn.canonize_between("A", "B", absorb="both"),
+    "canonize_between(B,C,absorb=both)": lambda tn: tn.canonize_between("B", "C", absorb="both"),
+    "canonize_between(A,B,method=svd)": lambda tn: tn.canonize_between("A", "B", method="svd"),
+    "compress_between(A,B,cutoff=0.0)": lambda tn: tn.compress_between("A", "B", cutoff=0.0),
+    "compress_between(B,C,cutoff=0.0,reduced=False)": lambda tn: tn.compress_between("B", "C", cutoff=0.0, reduced=False),
+    "compress_between(A,B,cutoff=0.0,absorb=left)": lambda tn: tn.compress_between("A", "B", cutoff=0.0, absorb="left"),
+    "canonize_around(C)": lambda tn: tn.canonize_around("C"),
+    "canonize_around(A,absorb=both)": lambda tn: tn.canonize_around("A", absorb="both"),
+    "gauge_all_canonize": lambda tn: tn.gauge_all_canonize(),
+    "gauge_all_canonize(absorb=both)": lambda tn: tn.gauge_all_canonize(absorb="both"),
+    "compress_all(cutoff=0.0)": lambda tn: tn.compress_all(cutoff=0.0),
+    "fuse_multibonds;squeeze": lambda tn: tn.fuse_multibonds().squeeze(),
+    "equalize_norms(1.0)": lambda tn: tn.equalize_norms(1.0),
+    "balance_bonds": lambda tn: tn.balance_bonds(),
+}
+
+
+@obligation(PROP, params=[{"op": o, "_tiers": _Q} for o in _GRADED_OPS], numeric=True, timeout_s=120)
+def graded_data_no_silent_truncation(mk, op):
+    """LABELLED NUMERIC-ONLY SUPPLEMENT (third round).  'Compression with no truncation' and every canonisation / gauging call
+    made WITHOUT asking for truncation must not truncate: on a 3-chain A-B-C whose middle tensor has singular values (1, 1e-12)
+    and whose last tensor amplifies the small direction by 1e12 (so the dense value depends on it at order one), the value over
+    the outer labels is preserved and no bond shrinks.  Symbolic runs cannot see this: singular values are generic symbols there
+    and a default relative cutoff of 1e-10 never bites (a truncating path found by the solver does not replay on random data and
+    ends inconclusive); the magnitudes are the point here."""
+    mk.encodes(tc.tensor_canonize_bond, tc.tensor_compress_bond, tc.TensorNetwork.canonize_between, tc.TensorNetwork.compress_between,
+               tc.TensorNetwork.canonize_around, tc.TensorNetwork.gauge_all_canonize, tc.TensorNetwork.compress_all)
+    if mk.sym:
+        mk.note("numeric-only: magnitudes of singular values against default cutoffs")
+        mk.same("numeric-only cell (symbolic run skipped)", True, True)
+        return
+    rng = np.random.default_rng(mk.rng.randint(0, 10 ** 6))
+    U, _ = np.linalg.qr(rng.normal(size=(2, 2)))
+    V, _ = np.linalg.qr(rng.normal(size=(2, 2)))
+    A = rng.normal(size=(2, 2))
+    B = U @ np.diag([1.0, 1e-12]) @ V.T
+    C = V @ np.diag([1.0, 1e12]) @ rng.normal(size=(2, 2))
+    tn = qtn.TensorNetwork([qtn.Tensor(A, ("a", "x"), tags="A"), qtn.Tensor(B, ("x", "y"), tags="B"), qtn.Tensor(C, ("y", "c"), tags="C")])
+    want = A @ B @ C
+    import warnings
+    with warnings.catch_warnings():
+        warnings.simplefilter("ignore")
+        work = tn.copy()
+        out = _GRADED_OPS[op](work)
+        if out is None:            # canonize_between / compress_between work in place and return nothing
+            out = work
+    mk.eq(f"[numeric-only] {op}: dense value preserved on graded data (no silent truncation)",
+          np.asarray(out.to_dense(("a",), ("c",))), want, tol=1e-3)
+    mk.same(f"[numeric-only] {op}: no bond shrank", all(out.ind_size(ix) == 2 for ix in out.inner_inds()), True)
+    mk.eq(f"[numeric-only] {op}: the caller's network is untouched", np.asarray(tn.to_dense(("a",), ("c",))), want, tol=1e-3)
+
+
+_FLAG_OPS = {
+    "isel(a=0)": lambda t: t.isel({"a": 0}),
+    "isel(b=1)": lambda t: t.isel({"b": 1}),
+    "isel(k=0)": lambda t: t.isel({"k": 0}),
+    "isel(a=slice(0,1))": lambda t: t.isel({"a": slice(0, 1)}),
+    "isel(b=slice(None))": lambda t: t.isel({"b": slice(None)}),
+    "isel(k=slice(0,1))": lambda t: t.isel({"k": slice(0, 1)}),
+    "isel(a=0,k=1)": lambda t: t.isel({"a": 0, "k": 1}),
+    "squeeze": lambda t: t.squeeze(),
+    "squeeze(exclude=a)": lambda t: t.squeeze(exclude=("a",)),
+    "transpose(k,a,b)": lambda t: t.transpose("k", "a", "b"),
+    "reindex(a->z)": lambda t: t.reindex({"a": "z"}),
+    "reindex(k->z)": lambda t: t.reindex({"k": "z"}),
+    "conj": lambda t: t.conj(),
+    "H": lambda t: t.H,
+    "copy": lambda t: t.copy(),
+    "t * 2": lambda t: t * 2.0,
+    "2 * t": lambda t: 2.0 * t,
+    "t / 2": lambda t: t / 2.0,
+    "-t": lambda t: -t,
+    "t + t": lambda t: t + t,
+    "multiply(3)": lambda t: t.multiply(3.0),
+    "fuse(ab)": lambda t: t.fuse({"ab": ("a", "b")}),
+    "fuse(bk)": lambda t: t.fuse({"bk": ("b", "k")}),
+    "sum_reduce(a)": lambda t: t.sum_reduce("a"),
+    "sum_reduce(k)": lambda t: t.sum_reduce("k"),
+    "new_ind(z,2)": lambda t: t.new_ind("z", size=2),
+    "new_ind_with_identity": lambda t: t.new_ind_with_identity("z", ("a",), ("y",)) if hasattr(t, "new_ind_with_identity") else None,
+    "expand_ind(k,3)": lambda t: t.expand_ind("k", 3),
+    "expand_ind(a,3)": lambda t: t.expand_ind("a", 3),
+    "flip(a)": lambda t: t.flip("a"),
+    "flip(k)": lambda t: t.flip("k"),
+    "astype(complex128)": lambda t: t.astype("complex128"),
+    "multiply_index_diagonal(k)": lambda t: t.multiply_index_diagonal("k", np.array([2.0, 3.0])[: t.ind_size("k")]),
+    "multiply_index_diagonal(a)": lambda t: t.multiply_index_diagonal("a", np.array([2.0, 3.0])[: t.ind_size("a")]),
+    "gate(k)": lambda t: t.gate(np.array([[1.0, 2.0], [0.5, -1.0]]), "k"),
+    "gate(a)": lambda t: t.gate(np.array([[1.0, 2.0], [0.5, -1.0]]), "a"),
+}
+
+
+@obligation(PROP, params=[{"dims": dm, "_tiers": _Q if dm == (2, 2) else _T, "_mandatory": dm == (2, 2)} for dm in ((2, 2), (1, 3), (2, 1))],
+            rounds=2, wall_s=280, timeout_s=360, max_rows=60000, exc_is_violation=False)
+def isometry_flag_under_tensor_methods(mk, dims):
+    """third round, promised form (iii) as ONE STEP from an arbitrary flagged isometry: Q[a,b,k] is the isometric factor of a
+    real QR decomposition (flag left_inds=(a,b) set by the library, Q^T Q = I from the decomposition contract).  After every
+    tensor-level method that returns a tensor -- selections and slices of left / right labels, squeeze, transposes, renames,
+    conjugation, scalings, sums, fusions, reductions, new / expanded labels, flips, one-label gates -- a result that still
+    carries left_inds must BE an isometry from exactly those labels (the flag is dropped or stays true), and its labels exist."""
+    mk.encodes(tc.Tensor.isel, tc.Tensor.squeeze, tc.Tensor.transpose, tc.Tensor.reindex, tc.Tensor.conj, tc.Tensor.fuse, tc.Tensor.sum_reduce,
+               tc.Tensor.new_ind, tc.Tensor.expand_ind, tc.Tensor.flip, tc.Tensor.astype, tc.Tensor.multiply_index_diagonal, tc.Tensor.gate,
+               tc.Tensor.modify, tc.Tensor.normalize)
+    da, db = dims
+    T = qtn.Tensor(mk.array("T", (da, db, 2), "real"), ("a", "b", "c"), tags="T")
+    Q, R = T.split(("a", "b"), method="qr", get="tensors", bond_ind="k")
+    mk.same("the library flags the QR factor as an isometry from (a, b)", tuple(Q.left_inds or ()), ("a", "b"))
+    iso_goal(mk, "premise: the flagged factor is an isometry (decomposition contract)", Q, ("a", "b"))
+    ops = dict(_FLAG_OPS)
+    ops["normalize"] = lambda t: t.normalize()
+    for nm, f in ops.items():
+        q = Q.copy()
+        try:
+            r = f(q)
+        except (ValueError, KeyError, TypeError, IndexError, AttributeError, NotImplementedError) as e:
+            mk.note(f"{nm}: rejected for dims {dims} ({type(e).__name__})")
+            continue
+        if not isinstance(r, qtn.Tensor):
+            continue
+        li = r.left_inds
+        if li is None:
+            mk.same(f"{nm}: flag dropped", True, True)
+            continue
+        li = tuple(li)
+        mk.same(f"{nm}: left_inds {li} are labels of the result {r.inds}", set(li) <= set(r.inds), True)
+        if set(li) <= set(r.inds):
+            iso_goal(mk, f"{nm}: result still flagged over {li} is an isometry from those labels", r, li)
+
+
 @obligation(PROP, params=[{"absorb": None, "then": th, "_tiers": _Q if th in ("rank", "resolve") else _T} for th in ("rank", "canonize", "resolve", "fullR", "eqn")],
             rounds=2, rounds2=3, wall_s=280, timeout_s=360, max_rows=60000)
 def split_then_pass(mk, absorb, then):
